@@ -13,7 +13,9 @@ re-orgs, duplicates, confirmations vs. any minimum) under two named hypotheses:
   `order_dependent_…` theorems.
 * one lockout window (`inWindow`): every operation and the probe lie within
   `min(lockoutWindow, 1h)` of `t0`, so no cache entry expires in between
-  (expiry itself is `lockout_expires`).
+  (expiry itself is `lockout_expires`) — or, for `lockout_renewed`, any number of
+  windows in which no lock had run out when an operation was processed
+  (`liveRegime`): every change of an upkeep's blocking state starts its lockout afresh.
 
 `ghost cfg ops` (Spec/C17) is the history read as the property reads it: keys
 accepted, accepted keys with a sufficiently confirmed log afterwards, and per
@@ -557,6 +559,101 @@ example :
       [(true, false), (false, false), (true, false), (false, false)] ∧
     isConfirmed (run cfg State.init (pre ++ recent)) 10500000000 (lit "10|7") = true := by decide
 
+/-! ### several windows: every change of the blocking state renews the lockout -/
+
+private theorem liveRegime_spec {cfg : Cfg} {h : List (Nat × Op)} {now : Nat} {probes : List Str} {tg : TGhost}
+    (hr : liveRegime cfg h now probes = some tg) :
+    (∀ p ∈ h, opCanon p.2 = true ∧ p.1 ≤ minTime h now + activeTtlNs ∧ minTime h now + activeTtlNs ≤ p.1 + activeTtlNs) ∧
+    (∀ key ∈ probes, probeCanon key = true) ∧ now ≤ minTime h now + activeTtlNs ∧
+    tghostFrom cfg TGhost.init h = some tg := by
+  unfold liveRegime at hr
+  simp only at hr
+  split at hr
+  · rename_i hc
+    simp only [Bool.and_eq_true, List.all_eq_true, decide_eq_true_eq] at hc
+    obtain ⟨⟨⟨h1, h2⟩, h3⟩, h4⟩ := hc
+    refine ⟨fun p hp => ⟨h1 p hp, (h3 p hp).2, ?_⟩, h2, h4, hr⟩
+    have := (h3 p hp).1
+    omega
+  · simp at hr
+
+/-- `lockout_renewed`: a canonical history of ANY length in time (within the hour an accepted key stays active), in
+    which no lock had run out when an operation was processed.  `tg.since id` is the time at which the blocking state
+    the history prescribes for `id` changed last.  Then for every id whose last change is at most one lockout window
+    before `now` (or that was never blocked) the coordinator answers what the WHOLE history prescribes — the join of all
+    contributions, first window or fifth: each change of the state starts the lockout afresh, the lock of the in-flight key
+    does not inherit the deadline of an earlier write of the same upkeep — and the confirmed set is the history's. -/
+theorem lockout_renewed (cfg : Cfg) (h : List (Nat × Op)) (now : Nat) (probes : List Str) (tg : TGhost)
+    (hr : liveRegime cfg h now probes = some tg) :
+    let s := run cfg State.init h
+    let g := ghost cfg (h.map (·.2))
+    tg.g = g ∧
+    (∀ key ∈ probes, probeLive cfg.window tg now key = true → isPending s now key = expPending g key) ∧
+    (∀ key, isConfirmed s now key = expConfirmed g key) := by
+  obtain ⟨hops, hprobes, hnow, htg⟩ := liveRegime_spec hr
+  have L := liveSim_run cfg _ h State.init TGhost.init tg (liveSim_init cfg _) hops htg
+  have hg : tg.g = ghost cfg (h.map (·.2)) := tghostFrom_g cfg h _ _ htg
+  refine ⟨hg, fun key hk hl => ?_, fun key => ?_⟩
+  · rw [← hg]; exact isPending_of_liveSim L key (hprobes key hk) hl
+  · rw [← hg]; exact isConfirmed_of_sim L.sim hnow key
+
+private theorem zipWith_map_congr {β γ : Type} (F : Str → β → γ) (f g : Str → β) (l : List Str)
+    (h : ∀ k ∈ l, F k (f k) = F k (g k)) : List.zipWith F l (l.map f) = List.zipWith F l (l.map g) := by
+  induction l with
+  | nil => rfl
+  | cons a l ih =>
+    simp only [List.map_cons, List.zipWith_cons_cons]
+    rw [h a (by simp), ih (fun k hk => h k (List.mem_cons_of_mem _ hk))]
+
+/-- the several-windows clause of the predicate holds of the model's own answers -/
+theorem observe_liveOk (cfg : Cfg) (probes ckeys : List Str) (h : List (Nat × Op)) (now : Nat) :
+    liveOk cfg probes ckeys h now (observe cfg probes ckeys h now) = true := by
+  unfold liveOk
+  cases hr : liveRegime cfg h now probes with
+  | none => rfl
+  | some tg =>
+    obtain ⟨_, a1, a2⟩ := lockout_renewed cfg h now probes tg hr
+    simp only [Bool.and_eq_true, decide_eq_true_eq]
+    refine ⟨⟨?_, ?_⟩, ?_⟩
+    · unfold observe expected
+      exact List.map_congr_left (fun key _ => a2 key)
+    · simp [observe]
+    · unfold observe expected maskLive
+      apply zipWith_map_congr
+      intro k hk
+      by_cases hl : probeLive cfg.window tg now k = true
+      · simp only [hl, if_true]; rw [a1 k hk hl]
+      · simp [hl]
+
+/-- the seeded situation, on the model: lockout 10 s; `10|7` accepted at 0.137 s and performed; the next key `20|7` of
+    the same upkeep accepted at 8.137 s.  At 12 s — past (first write + window), before (last change + window) — the
+    hypotheses of `lockout_renewed` hold, id 7 changed last at 8.137 s, and every check block is still filtered; one
+    window after the LAST change (18.137 s) it still is, a nanosecond later it is not. -/
+example :
+    let cfg : Cfg := { lockout := 10000000000, minConfs := 0 }
+    let h : List (Nat × Op) := [(137000000, .accept (lit "10|7")),
+      (1000000000, .perform { key := lit "10|7", transmit := lit "15", confs := 3 }),
+      (8137000000, .accept (lit "20|7"))]
+    let probes := [lit "20|7", lit "21|7", lit "1000|7"]
+    (liveRegime cfg h 12000000000 probes).map (fun tg => (sinceOf tg.since (lit "7"), probes.map (probeLive cfg.window tg 12000000000))) =
+      some (some 8137000000, [true, true, true]) ∧
+    regime cfg h 12000000000 probes = false ∧
+    probes.map (isPending (run cfg State.init h) 12000000000) = [(true, false), (true, false), (true, false)] ∧
+    probes.map (isPending (run cfg State.init h) 18137000000) = [(true, false), (true, false), (true, false)] ∧
+    probes.map (isPending (run cfg State.init h) 18137000001) = [(false, false), (false, false), (false, false)] := by
+  decide
+
+/-- what does NOT renew a lockout: an event that leaves the blocking state as it is.  `20|7` accepted at 0.137 s, the OLDER
+    check block `10|7` of the same upkeep accepted at 8.137 s (absorbed by the join): the lock runs out one window after
+    the first accept. -/
+theorem absorbed_accept_does_not_renew :
+    let cfg : Cfg := { lockout := 10000000000, minConfs := 0 }
+    let h : List (Nat × Op) := [(137000000, .accept (lit "20|7")), (8137000000, .accept (lit "10|7"))]
+    (liveRegime cfg h 10137000001 [lit "20|7"]).map (fun tg => sinceOf tg.since (lit "7")) = some (some 137000000) ∧
+    isPending (run cfg State.init h) 10137000000 (lit "20|7") = (true, false) ∧
+    isPending (run cfg State.init h) 10137000001 (lit "20|7") = (false, false) := by
+  decide
+
 /-! ### the Spec predicate holds of the model, for every case the harness can generate -/
 
 /-- inside the regime the model's observation is the one the history prescribes -/
@@ -614,7 +711,7 @@ theorem spec_model (cfg : Cfg) (probes ckeys : List Str) (runs : List Run) :
     intro p _
     unfold pointOk
     simp only [Bool.and_eq_true]
-    refine ⟨?_, observe_lateOk cfg probes ckeys _ _⟩
+    refine ⟨⟨?_, observe_lateOk cfg probes ckeys _ _⟩, observe_liveOk cfg probes ckeys _ _⟩
     by_cases hr : regime cfg (r.ops.take p.1) p.2 probes = true
     · simp [hr, observe_eq_expected cfg probes ckeys _ _ hr]
     · simp [hr]
